@@ -5,7 +5,8 @@
    implementation and known event hashes on every run. *)
 From Coq Require Import String.
 From Coq Require Import List NArith ZArith Bool.
-From Shovel Require Import Base.Outcome Model.AbiType Model.AbiParse Model.AbiSig Proofs.AbiParseP Proofs.AbiSigP.
+From Shovel Require Import Base.Outcome Model.Hex Model.AbiType Model.AbiParse Model.AbiSig Model.Keccak
+     Proofs.AbiParseP Proofs.AbiSigP Proofs.KeccakP.
 Import ListNotations.
 Open Scope N_scope.
 
@@ -52,6 +53,38 @@ Section Keccak.
   Proof. exact (gate_iff_l keccak). Qed.
 End Keccak.
 Print Assumptions gate_iff.
+
+(* the same with the concrete, executable Keccak-256 of Model/Keccak.v (validated
+   against eth.Keccak on every run): no free hash function is left *)
+Theorem gate_iff_keccak256 : forall name js topics data,
+  let e := event_of name js in
+  (exists st, gate (num_indexed e) (ig_sighash keccak256 e) topics data = Ok st /\ st <> Skip) <->
+  (length topics = S (length (filter j_indexed js)) /\
+   nth_error topics 0 = Some (keccak256 (canon_sig name js))).
+Proof. exact (gate_iff_l keccak256). Qed.
+Print Assumptions gate_iff_keccak256.
+
+(* every input: the digest has 32 bytes; the sponge state keeps its 25 lanes
+   through any number of absorbed blocks; the padded message is a whole number
+   (>= 1) of 136-byte blocks *)
+Theorem keccak256_digest_length : forall bs, length (keccak256 bs) = 32%nat.
+Proof. exact keccak256_length. Qed.
+Print Assumptions keccak256_digest_length.
+
+Theorem keccak_state_lanes : forall bs, length (keccak_state bs) = 25%nat.
+Proof. exact keccak_state_length. Qed.
+Print Assumptions keccak_state_lanes.
+
+Theorem keccak_padding_blocks : forall len,
+  Nat.modulo (len + length (pad len)) rate = 0%nat /\ (1 <= length (pad len))%nat.
+Proof. exact pad_blocks. Qed.
+Print Assumptions keccak_padding_blocks.
+
+(* standard vectors, by computation *)
+Example ex_keccak_transfer :
+  keccak256 (str "Transfer(address,address,uint256)")
+  = Hex.decode_hex (str "ddf252ad1be2c89b69c2b068fc378daa952ba7f163c4a11628f55a4df523b3ef").
+Proof. exact keccak256_transfer. Qed.
 
 (* non-vacuity: Foo((uint256,(address,bytes[2]))[],uint8[3][]) *)
 Example ex_sig :
